@@ -192,6 +192,11 @@ pub fn record_c16(args: &Args, mut out: Out) -> usize {
     let mut ns: Vec<u32> = (1..=max_n).collect();
     for _ in 0..args.num("samples", 64) {
         ns.push(max_n + 1 + rng.below(1 << 20) as u32);
+        ns.push((1 << 20) + rng.below((1 << 24) - (1 << 20)) as u32);
+    }
+    for k in [1u32, 2, 3, 16, 255] {
+        ns.push(65_536 * k);
+        ns.push(65_536 * k + 1);
     }
     for n in ns {
         let r = guarded(move || scope::calculate_scopes(n));
